@@ -80,6 +80,48 @@ def with_caller_zero(w, slot, code):
     return Slot(t, ref, w.evidx)
 
 
+def big_slot(w, slot, code):
+    """sometimes: a table with one long axis (513..800 vectors), built from
+    the slot's content by repeating its vectors cyclically (rotated, so the
+    repeats differ) under fresh ids -- sizes at which block-wise writers and
+    readers take their second block.  None when not chosen."""
+    from .world import Slot
+    from .build import build_table
+    import copy as _copy
+    if code % 16 != 5:
+        return None
+    ref = slot.ref
+    ax = (code // 16) % 2
+    n = 513 + (code // 32) % 288
+    R = ref.n(ax)
+    oax = 1 - ax
+    rows = []
+    ids, md = [], []
+    src_md = ref.md[ax]
+    for k in range(n):
+        v = np.roll(ref.vec(ax, k % R), k // R)
+        rows.append(v)
+        ids.append('%s#%d' % (ref.ids[ax][k % R], k // R) if k >= R
+                   else ref.ids[ax][k])
+        if src_md is not None:
+            md.append(_copy.deepcopy(src_md[k % R]))
+    m = np.array(rows)
+    if ax == 1:
+        m = m.T
+    allids = [None, None]
+    allids[ax], allids[oax] = ids, list(ref.ids[oax])
+    allmd = [None, None]
+    allmd[ax] = md if src_md is not None else None
+    allmd[oax] = _copy.deepcopy(ref.md[oax])
+    big = Ref(allids[0], allids[1], m, allmd[0], allmd[1], ref.type,
+              ref.table_id)
+    if len(set(ids)) != len(ids):
+        return None
+    t = build_table(big, (code // 7) % 3, code % 100, 0)
+    w.stats['rare.big_axis'] += 1
+    return Slot(t, big, w.evidx)
+
+
 def _write_h5(w, ev, slot, path, stamp=True):
     """write slot's table to path through a PRNG-chosen route; returns the
     dict of what was written (generated_by, creation_date, ...)"""
@@ -129,6 +171,7 @@ def _add_group_md(w, ev, slot):
             if (ev.get('c', 0) >> 5) & 1:
                 gm = {'pair': ('txt', 'ab')}
             slot.real.add_group_metadata(dict(gm), axis=AXNAME[ax])
+            slot.group_md_baseline()
             w.stats['c01.group_md_added'] += 1
 
 
@@ -229,6 +272,8 @@ def c01_roundtrip(w, ev, slot):
            regm=reloaded_gm)
     src = slot if reloaded_gm else \
         with_caller_zero(w, slot, ev.get('salt', 0) // 7)
+    if src is slot and not reloaded_gm:
+        src = big_slot(w, slot, ev.get('c', 0) >> 3) or slot
     if src is not slot:
         gmt = [None, None]
     try:
@@ -342,6 +387,36 @@ def _raw_metadata_problems(path, ref):
     return probs
 
 
+def _prior_custom_formatter_write(w, target):
+    import h5py
+    from biom.util import H5PY_VLEN_STR
+    ref = target.ref
+    fs = {}
+    for ax in (0, 1):
+        md = ref.md[ax]
+        if not md:
+            continue
+        for k in md[0]:
+            if all(isinstance(d.get(k), str) for d in md):
+                def shout(grp, header, md_, compression):
+                    grp.create_dataset(
+                        'metadata/%s' % header.replace('/', '@@SLASH@@'),
+                        shape=(len(md_),), dtype=H5PY_VLEN_STR,
+                        data=[('!' + m[header].upper()).encode('utf8')
+                              for m in md_], compression=compression)
+                fs[k] = shout
+    if not fs:
+        return
+    w.file_counter += 1
+    try:
+        with h5py.File('prior%d.h5' % w.file_counter, 'w', driver='core',
+                       backing_store=False) as f:
+            target.real.to_hdf5(f, 'prior', format_fs=fs)
+        w.stats['c04.prior_custom_formatter'] += 1
+    except Exception:  # noqa
+        w.stats['c04.prior_custom_formatter_refused'] += 1
+
+
 @probe('c04_spec')
 def c04_spec(w, ev, slot):
     import h5py
@@ -365,6 +440,24 @@ def c04_spec(w, ev, slot):
         tmp = Slot(t0, r0, w.evidx)
         target = tmp
         w.stats['c04.empty_axis'] += 1
+    cbits = ev.get('c', 0)
+    if (cbits >> 8) & 1 and tmp is None and target is slot:
+        # history: the table written is one that was read from a BIOM 1.0
+        # JSON document (biom convert's JSON -> HDF5 direction)
+        import biom
+        import io
+        from .world import Slot
+        try:
+            tj = biom.parse_table(io.StringIO(slot.real.to_json('c04')))
+        except Exception:  # noqa  (C02's business)
+            tj = None
+        if tj is not None and not diff_ref(Snap(tj), ref):
+            target = Slot(tj, ref_from_snap(Snap(tj)), w.evidx)
+            w.stats['c04.json_derived'] += 1
+    if (cbits >> 7) & 1:
+        # an earlier to_hdf5 call in this process used a caller-supplied
+        # formatter for one category; later plain calls must not inherit it
+        _prior_custom_formatter_write(w, target)
     path = store.new_path(w, '.biom')
     w.case('c04.spec', 'write', slot, a=ev.get('a', 0) % 16, mode=mode)
     try:
@@ -392,6 +485,22 @@ def c04_spec(w, ev, slot):
 
 
 # ===================================================================== C14 ==
+def _write_ids_file(path, names, form):
+    """the ids file of `biom subset-table`: one id per line (first
+    tab-separated field), '#' lines are comments"""
+    with open(path, 'w', encoding='utf8', newline='') as f:
+        if form == 0:
+            f.write('#a comment line\n')
+            for i in names:
+                f.write(i + '\tignored second column\n')
+        elif form == 1:
+            f.write('\n'.join(names))           # last line not terminated
+        elif form == 2:
+            f.write(''.join(i + '\r\n' for i in names))
+        else:
+            f.write('#ids\n' + '\n'.join(i + '\tx' for i in names))
+
+
 def _drop_empty_other(exp, ax):
     oax = 1 - ax
     keep = [i for i in range(exp.n(oax)) if (exp.vec(oax, i) != 0).any()]
@@ -484,18 +593,20 @@ def c14_subset(w, ev, slot):
             else:
                 _cmp_subset(w, got, exp_drop, 'subset-table (HDF5, ids=%r)'
                             % (names,))
-            if (a >> 2) & 1 and all(
+            # (the command loads the file and writes a new one: with group
+            # metadata in the file that is the recorded finding
+            # C01.reloaded_group_md_unwritable, not a subsetting matter)
+            if (a >> 2) & 1 and not any(
+                    t.group_metadata(axis=x) for x in AXNAME) and all(
                     i and '\t' not in i and '\n' not in i and '\r' not in i
                     and not i.startswith('#') and i == i.strip()
                     for i in names):
                 from biom.cli.table_subsetter import subset_table as cmd
                 idsf = store.new_path(w, '.ids.txt')
                 outp = store.new_path(w, '.sub.biom')
-                with open(idsf, 'w', encoding='utf8') as f:
-                    f.write('#a comment line\n')
-                    for i in names:
-                        f.write(i + '\tignored second column\n')
-                w.case('c14.subset', 'subset_table_command', slot, ax=ax)
+                _write_ids_file(idsf, names, (a >> 6) % 4)
+                w.case('c14.subset', 'subset_table_command', slot, ax=ax,
+                       idsform=(a >> 6) % 4)
                 try:
                     cmd.callback(path, None, AXNAME[ax], idsf, outp)
                     got = biom.load_table(outp)
@@ -594,6 +705,38 @@ def c14_subset(w, ev, slot):
     if len(set(results)) > 1:
         w.fail('c14.serialisation', 'subset-table gives different tables for '
                'different serialisations of the same JSON document')
+    if (a >> 3) & 1 and all(
+            i and '\t' not in i and '\n' not in i and '\r' not in i
+            and not i.startswith('#') and i == i.strip() for i in names):
+        # the click command itself on the JSON document: ids file in, JSON
+        # document out
+        from biom.cli.table_subsetter import subset_table as cmd
+        jpath = store.new_path(w, '.json.biom')
+        idsf = store.new_path(w, '.ids.txt')
+        outp = store.new_path(w, '.sub.json')
+        with open(jpath, 'w', encoding='utf8') as f:
+            f.write(text)
+        _write_ids_file(idsf, names, (a >> 6) % 4)
+        w.case('c14.subset', 'subset_table_command_json', slot, ax=ax,
+               idsform=(a >> 6) % 4)
+        try:
+            cmd.callback(None, jpath, AXNAME[ax], idsf, outp)
+            with open(outp, encoding='utf8') as f:
+                got = Table.from_json(json.load(f))
+        except Exception as e:  # noqa
+            w.fail('c14.subset_raised', 'biom subset-table -j raised %r'
+                   % (e,))
+        else:
+            e2 = exp_take.copy()
+            e2.md = [canon_md(json.loads(json.dumps(m))) if m else None
+                     for m in e2.md]
+            _cmp_subset(w, got, e2, 'biom subset-table -j (ids file %r)'
+                        % (names,))
+        finally:
+            for pth in (jpath, idsf, outp):
+                if os.path.exists(pth):
+                    os.unlink(pth)
+        w.stats['c14.cli_command_json'] += 1
     if unknown:
         w.stats['fault.F2.armed'] += 1
         try:
